@@ -381,7 +381,21 @@ def check_c35(A: Analysis, col: Collector):
         pre = _call_nodes(A, R, attr_call("pre_run_task"))
         post_pred = attr_call("post_run_task")
         is_post = lambda n: any(post_pred(c) for e in n.exprs for c in [e] + list(walk_own(e)) if isinstance(c, ast.Call))
-        n_pairs += check_pairing(A, col, R, "C35.hooks", "task-hooks", pre, is_post, what="hooks.post_run_task")
+        # "each called exactly once for every actual execution": the start hook dominates
+        # the task-body call, and from the task-body call (however it ends) the end hook
+        # is reached on every path
+        task_nodes_h = R.cfg.nodes_containing(R.task_call)
+        pre_ids = {n.id for n in pre}
+        for tn in task_nodes_h:
+            if pre and R.cfg.dominated_by(tn, lambda m: m.id in pre_ids):
+                col.ok("C35.hooks", f"{fn.qualname}: pre_run_task dominates the task-body call", A.loc(R.task_call))
+            else:
+                col.fail("C35.hooks", fn.qualname, "task-hooks:pre-not-before-body", "the task body can be entered without pre_run_task having been called", A.loc(R.task_call))
+        if len(pre) > 1:
+            for a in pre:
+                if any(b.id in R.cfg.reachable_from([a]) and b is not a for b in pre):
+                    col.fail("C35.hooks", fn.qualname, "task-hooks:pre-twice", "pre_run_task can run twice on one path", A.loc(a.stmt))
+        n_pairs += check_pairing(A, col, R, "C35.hooks", "task-hooks", task_nodes_h, is_post, start_edges="all", what="hooks.post_run_task")
         # exactly once: from a completed post_run_task no second one is reachable
         toks = tokens_for(A, R)
         posts = [n for n in R.cfg.nodes if is_post(n)]
@@ -1023,3 +1037,761 @@ def check_c13(A: Analysis, col: Collector):
     errored_is_reported(A, col, "C13.report")
     python_outputs_cover(A, col, "C13.python-outputs")
     load_and_run_results(A, col, "C13.load_and_run")
+
+
+# --------------------------------------------------------------------------- #
+# C10: lock protocol
+# --------------------------------------------------------------------------- #
+
+
+def self_readset(A: Analysis, cls: ClassInfo, prop_name: str, _seen=None) -> tuple[set[str], set[str]]:
+    """(leaf self-attributes, external callee names) read transitively by a property
+    chain on `self`."""
+    _seen = _seen if _seen is not None else set()
+    leaves: set[str] = set()
+    calls: set[str] = set()
+    if prop_name in _seen:
+        return leaves, calls
+    _seen.add(prop_name)
+    m = cls.find_method(prop_name)
+    if m is None or not m.is_property_getter:
+        return {prop_name}, calls
+    for n in walk_own(m.node):
+        if isinstance(n, ast.Attribute) and isinstance(n.value, ast.Name) and n.value.id == "self" and isinstance(n.ctx, ast.Load):
+            l, c = self_readset(A, cls, n.attr, _seen)
+            leaves |= l
+            calls |= c
+        elif isinstance(n, ast.Attribute) and isinstance(n.value, ast.Attribute) and dotted(n.value) and dotted(n.value).startswith("self."):
+            # self.task._checksum : record as 'task._checksum'
+            if isinstance(n.ctx, ast.Load):
+                leaves.add(dotted(n)[5:])
+        elif isinstance(n, ast.Call):
+            calls |= {q for q in A.callee_names(n, m) if not q.startswith("attr:")}
+    return leaves, calls
+
+
+NONDETERMINISTIC_CALLS = ("os.getpid", "uuid.uuid4", "time.time", "datetime.datetime.now", "datetime.now", "random.random", "socket.gethostname", "id")
+
+
+def lock_rules(A: Analysis, col: Collector, runs: list[RunFn], rule: str):
+    job = A.cls("pydra.engine.job.Job")
+    # (a) protocol steps inside the lock
+    lock_exprs = []
+    for R in runs:
+        fn = R.fn
+        if R.lock_with is None:
+            col.fail(rule, fn.qualname, "no-lock-around-task-body", "the task body is executed without holding the per-identity lock", A.loc(R.task_call))
+            continue
+        lock_exprs.append(norm(R.lock_with.items[0].context_expr.args[0]) if R.lock_with.items[0].context_expr.args else "?")
+        steps = [("cache-check", R.result_calls), ("populate", R.populate_calls), ("task-body", R.task_calls), ("record_error", R.record_calls), ("save-result", R.save_calls)]
+        for name, calls in steps:
+            if not calls and name in ("cache-check", "populate", "save-result", "record_error"):
+                col.fail(rule, fn.qualname, f"step-missing:{name}", f"protocol step `{name}` not found in the run function", A.loc(fn.node))
+                continue
+            outside = [c for c in calls if not is_within(c, R.lock_with)]
+            if outside:
+                col.fail(rule, fn.qualname, f"outside-lock:{name}", f"`{norm(outside[0], 50)}` ({name}) is outside the `with <lock>` block: concurrent submitters can interleave between check and write", A.loc(outside[0]))
+            else:
+                col.ok(rule, f"{fn.qualname}: step `{name}` ({len(calls)} site(s)) is inside the lock block", A.loc(calls[0]))
+        # the cache check precedes populate inside the lock
+        if R.result_calls and R.populate_calls:
+            if min(c.lineno for c in R.result_calls) < min(c.lineno for c in R.populate_calls):
+                col.ok(rule, f"{fn.qualname}: the cache check precedes _populate_filesystem under the lock", A.loc(R.result_calls[0]))
+            else:
+                col.fail(rule, fn.qualname, "populate-before-cache-check", "_populate_filesystem (which clears the job directory) runs before the cache check", A.loc(R.populate_calls[0]))
+    if len(set(lock_exprs)) > 1:
+        col.fail(rule, "pydra.engine.job.Job", "lock-names-differ:" + "|".join(sorted(set(lock_exprs))), f"the run functions lock different names {sorted(set(lock_exprs))}: a sync and an async submitter of one identity do not exclude each other", A.loc(runs[0].fn.node))
+    elif lock_exprs:
+        col.ok(rule, f"both run functions lock `{lock_exprs[0]}`", A.loc(runs[0].lock_with))
+    # (b) lock name derives from cache_root and checksum only
+    for expr in sorted(set(lock_exprs)):
+        if not expr.startswith("self."):
+            col.fail(rule, "pydra.engine.job.Job", f"lock-name-not-from-self:{expr}", f"the lock name `{expr}` is not a property of the job", A.loc(runs[0].lock_with))
+            continue
+        leaves, calls = self_readset(A, job, expr[5:])
+        need = {"_checksum", "_cache_root"}
+        forbidden_attrs = {l for l in leaves if l.lstrip("_") in ("uid", "name", "state_index") or "uid" in l}
+        forbidden_calls = {c for c in calls if c in NONDETERMINISTIC_CALLS}
+        if forbidden_attrs or forbidden_calls:
+            col.fail(rule, "pydra.engine.job.Job", "lock-name-depends-on:" + "+".join(sorted(forbidden_attrs | forbidden_calls)), f"the lock file name depends on {sorted(forbidden_attrs | forbidden_calls)}: two submitters of the same identity get different locks", A.loc(job.find_method(expr[5:]).node))
+        elif not need <= leaves:
+            col.fail(rule, "pydra.engine.job.Job", "lock-name-missing:" + "+".join(sorted(need - leaves)), f"the lock file name does not depend on {sorted(need - leaves)}: distinct identities (or cache roots) share one lock or none", A.loc(job.find_method(expr[5:]).node))
+        else:
+            col.ok(rule, f"lock name `{expr}` reads only {sorted(leaves)} (cache root + checksum), no uid/pid/time", A.loc(job.find_method(expr[5:]).node))
+    # (c) PydraFileLock
+    enter = A.func("pydra.engine.job.PydraFileLock.__aenter__")
+    col.scope(enter.qualname)
+    cfg = A.cfg(enter)
+    acq_nodes = [n for n in cfg.nodes if any(isinstance(c, ast.Call) and isinstance(c.func, ast.Attribute) and c.func.attr == "acquire" for e in n.exprs for c in [e] + list(walk_own(e)))]
+    A.anchor("lock.acquire in PydraFileLock.__aenter__", acq_nodes)
+    acq_ids = {n.id for n in acq_nodes}
+    # boolean flags assigned constants
+    flags = set()
+    for n in walk_own(enter.node):
+        if isinstance(n, ast.Assign) and _const_bool(n.value) is not None:
+            for t in n.targets:
+                if isinstance(t, ast.Name):
+                    flags.add(t.id)
+
+    def transfer(node, st, completed):
+        acquired, fl = st
+        fl = dict(fl)
+        if completed and node.id in acq_ids:
+            acquired = True
+        if completed and node.kind == "stmt" and isinstance(node.stmt, ast.Assign):
+            b = _const_bool(node.stmt.value)
+            for t in node.stmt.targets:
+                if isinstance(t, ast.Name) and t.id in flags and b is not None:
+                    fl[t.id] = b
+        return (acquired, tuple(sorted(fl.items())))
+
+    def edge_ok(node, label, st):
+        if node.kind in ("loop", "test") and label in ("T", "F"):
+            test = node.stmt.test if hasattr(node.stmt, "test") else None
+            fl = dict(st[1])
+            for name, val in fl.items():
+                tl = _truthy_label(test, name) if test is not None else None
+                if tl is not None:
+                    # edge `tl` is where name is truthy
+                    if val and label != tl:
+                        return False
+                    if not val and label == tl:
+                        return False
+        return True
+
+    def tokens(node):
+        t = A.rm.node_tokens(node, enter)
+        if node.id in acq_ids:
+            t = set(t) | {"Timeout"}
+        return t
+
+    esc = explore(cfg, [(cfg.entry, None)], tokens, state0=(False, ()), transfer=transfer, edge_ok=edge_ok)
+    bad = [e for e in esc if e.exit_kind == "return" and not e.state[0]]
+    if bad:
+        col.fail(rule, enter.qualname, "aenter-returns-without-acquire", "PydraFileLock.__aenter__ can return without a completed lock.acquire(): the async run function enters its critical section unlocked", A.loc(enter.node), witness=format_path(bad[0].path))
+    else:
+        col.ok(rule, "PydraFileLock.__aenter__ returns only after lock.acquire() completed without Timeout (flag-sensitive path exploration)", A.loc(enter.node))
+    timeouts = [e for e in esc if e.exit_kind == "raise" and e.token == "Timeout"]
+    if timeouts:
+        col.fail(rule, enter.qualname, "aenter-timeout-escapes", "a Timeout of lock.acquire escapes __aenter__ (the waiting submitter fails instead of waiting)", A.loc(enter.node), witness=format_path(timeouts[0].path))
+    else:
+        col.ok(rule, "PydraFileLock.__aenter__: Timeout of acquire is handled and retried", A.loc(enter.node))
+    ex = A.func("pydra.engine.job.PydraFileLock.__aexit__")
+    cfgx = A.cfg(ex)
+    is_rel = lambda n: any(isinstance(c, ast.Call) and isinstance(c.func, ast.Attribute) and c.func.attr == "release" for e in n.exprs for c in [e] + list(walk_own(e)))
+    escx = explore(cfgx, [(cfgx.entry, None)], A.rm.tokens_fn(ex), stop=is_rel)
+    if [e for e in escx if e.exit_kind == "return"]:
+        col.fail(rule, ex.qualname, "aexit-without-release", "PydraFileLock.__aexit__ can return without releasing the lock", A.loc(ex.node))
+    else:
+        col.ok(rule, "PydraFileLock.__aexit__ releases the lock on every path", A.loc(ex.node))
+    # the lock acquired and the lock released are the same object: self.lock assigned from the acquired local
+    assigned = [n for n in walk_own(enter.node) if isinstance(n, ast.Assign) and any(isinstance(t, ast.Attribute) and t.attr == "lock" for t in n.targets)]
+    if assigned:
+        col.ok(rule, "PydraFileLock.__aenter__ stores the acquired lock object for __aexit__", A.loc(assigned[0]))
+    else:
+        col.fail(rule, enter.qualname, "acquired-lock-not-stored", "the acquired lock is not stored on the context manager; __aexit__ cannot release it", A.loc(enter.node))
+
+
+@prop(
+    "C10",
+    technique="lock-region containment + read-set of the lock name + flag-sensitive path exploration of the async lock + handler/bounded-retry rule for readers",
+    decides="the structural obligations of the lock protocol: (a) cache check, directory population, task body, error record and result save are all inside one `with <lock>` block in every run function, the check precedes population, and both run functions lock the same name; (b) the lock name reads only the cache root and the checksum (no uid/pid/time); (c) PydraFileLock.__aenter__ returns only after a completed acquire and __aexit__ always releases; (d) unlocked readers of _result.pklz tolerate partial files (handler for UnpicklingError/EOFError in a bounded loop, return None).",
+    not_decided="the interleavings themselves, filelock's own correctness, NFS semantics.",
+    level_note="Trusted: filelock.SoftFileLock gives mutual exclusion for equal paths; CPython ast.",
+)
+def check_c10(A: Analysis, col: Collector):
+    runs = run_functions(A)
+    for R in runs:
+        col.scope(R.fn.qualname)
+    lock_rules(A, col, runs, "C10.lock")
+    for R in runs:
+        hit_condition(A, col, R, "C10.hit-in-lock")
+    tolerant_reader(A, col, "C10.reader")
+    col.assume("filelock.SoftFileLock provides mutual exclusion between processes for the same lock path")
+
+
+# --------------------------------------------------------------------------- #
+# C19
+# --------------------------------------------------------------------------- #
+
+
+def _calls_in_node(n: Node):
+    for e in n.exprs:
+        for c in [e] + list(walk_own(e)):
+            if isinstance(c, ast.Call):
+                yield c
+
+
+@prop(
+    "C19",
+    technique="must-pass-through on the run functions' CFGs, memo-shape check of Job.checksum, def-use flow from job.inputs to the task body's arguments",
+    decides="(a) every normally returning path that executed the task body passes _check_for_hash_changes(), which raises when Task._hash_changes() is non-empty; (b) the job checksum is memoised before the task body runs (the lock expression reads it) and results are saved under self.cache_dir; (c) every task body receives its input values through the copy-mode-aware staging Job.inputs, and Job.inputs stages with mode=fld.copy_mode.",
+    not_decided="which in-place mutations the content hash can detect; behaviour of user functions that keep references to inputs.",
+    level_note="Trusted: flow analysis (flow-insensitive def-use with property inlining bound 2).",
+)
+def check_c19(A: Analysis, col: Collector):
+    runs = run_functions(A)
+    for R in runs:
+        fn = R.fn
+        col.scope(fn.qualname)
+        toks = tokens_for(A, R)
+        is_chk = lambda n: any(isinstance(c.func, ast.Attribute) and c.func.attr == "_check_for_hash_changes" for c in _calls_in_node(n))
+        chk_nodes = [n for n in R.cfg.nodes if is_chk(n)]
+        if not chk_nodes:
+            col.fail("C19.hash-check", fn.qualname, "no-hash-change-check", "the run function never calls _check_for_hash_changes(): in-place modification of inputs by the task goes unreported", A.loc(fn.node))
+        else:
+            esc = explore(R.cfg, [(n, None) for n in R.cfg.nodes_containing(R.task_call)], toks, stop=is_chk, start_edges="normal")
+            normal = [e for e in esc if e.exit_kind == "return"]
+            if normal:
+                col.fail("C19.hash-check", fn.qualname, "normal-exit-without-hash-check", "a path that executed the task body returns normally without _check_for_hash_changes()", A.loc(R.task_call), witness=format_path(normal[0].path))
+            else:
+                col.ok("C19.hash-check", f"{fn.qualname}: every normal exit after the task body passes _check_for_hash_changes()", A.loc(chk_nodes[0].stmt))
+        # (b) checksum memoised before the body
+        if R.lock_with is not None:
+            reads = any(isinstance(a, ast.Attribute) and a.attr in ("lockfile", "cache_dir", "checksum") and dotted(a.value) == "self" for it in R.lock_with.items for a in ast.walk(it.context_expr))
+            if reads:
+                col.ok("C19.identity", f"{fn.qualname}: the lock expression evaluates self.lockfile -> cache_dir -> checksum before the task body (memoised identity)", A.loc(R.lock_with))
+            else:
+                col.fail("C19.identity", fn.qualname, "checksum-not-read-before-body", "the job checksum is not evaluated before the task body runs: the result would be stored under the identity of the modified inputs", A.loc(R.lock_with))
+        for c in R.save_calls:
+            a0 = c.args[0] if c.args else None
+            if a0 is not None and norm(a0) == "self.cache_dir":
+                col.ok("C19.identity", f"{fn.qualname}: result saved under self.cache_dir", A.loc(c))
+            else:
+                col.fail("C19.identity", fn.qualname, f"save-target:{norm(a0, 30)}", "the result is not saved under self.cache_dir", A.loc(c))
+    memo_property_ok(A, col, "C19.identity")
+    job = A.cls("pydra.engine.job.Job")
+    chk = job.find_method("checksum")
+    if any(isinstance(n, ast.Attribute) and n.attr == "_checksum" and dotted(n.value) == "self.task" for n in walk_own(chk.node)):
+        col.ok("C19.identity", "Job.checksum is the task's _checksum", A.loc(chk.node))
+    else:
+        col.fail("C19.identity", chk.qualname, "checksum-not-task-checksum", "Job.checksum no longer derives from self.task._checksum", A.loc(chk.node))
+    # _check_for_hash_changes raises when changes exist
+    cf = A.func("pydra.engine.job.Job._check_for_hash_changes")
+    cfg = A.cfg(cf)
+    var = None
+    for n in walk_own(cf.node):
+        if isinstance(n, ast.Assign) and isinstance(n.value, ast.Call) and isinstance(n.value.func, ast.Attribute) and n.value.func.attr == "_hash_changes":
+            var = n.targets[0].id if isinstance(n.targets[0], ast.Name) else None
+    if var is None:
+        raise AnalysisError("_check_for_hash_changes: call to Task._hash_changes not found")
+    tests = [n for n in cfg.nodes if n.kind == "test" and isinstance(n.stmt, ast.If) and _truthy_label(n.stmt.test, var) == "T"]
+    good = False
+    for t in tests:
+        esc = explore(cfg, [(m, None) for l, m in t.succ if l == "T"], A.rm.tokens_fn(cf))
+        if esc and all(e.exit_kind == "raise" for e in esc):
+            good = True
+    if good:
+        col.ok("C19.hash-check", "_check_for_hash_changes raises on every path where hash_changes is non-empty", A.loc(cf.node))
+    else:
+        col.fail("C19.hash-check", cf.qualname, "hash-changes-not-raised", "_check_for_hash_changes does not raise when Task._hash_changes() reports changes", A.loc(cf.node))
+    hc = A.func("pydra.compose.base.task.Task._hash_changes")
+    txt = " ".join(norm(n) for n in walk_own(hc.node) if isinstance(n, ast.Return))
+    if "_compute_hashes" in " ".join(norm(n) for n in walk_own(hc.node) if isinstance(n, ast.Assign)) and "self._hashes" in txt and "!=" in txt:
+        col.ok("C19.hash-check", "Task._hash_changes recomputes the hashes and compares every key with the recorded self._hashes", A.loc(hc.node))
+    else:
+        col.fail("C19.hash-check", hc.qualname, "hash-changes-comparison", "Task._hash_changes no longer compares recomputed hashes with the recorded ones", A.loc(hc.node))
+    # (c) staged inputs are what the body sees
+    staged_inputs_rule(A, col, "C19.staging")
+
+
+def staged_inputs_rule(A: Analysis, col: Collector, rule: str):
+    task = A.cls("pydra.compose.base.task.Task")
+    n_sites = 0
+    # python task: the user function's arguments
+    pr = A.func("pydra.compose.python.PythonTask._run")
+    col.scope(pr.qualname)
+    for c in A.calls(pr):
+        if isinstance(c.func, ast.Attribute) and c.func.attr == "function" and dotted(c.func.value) == "self":
+            n_sites += 1
+            roots = None
+            for k in c.keywords:
+                if k.arg is None:
+                    roots = A.flow.derives(k.value, pr)
+            for a in c.args:
+                r2 = A.flow.derives(a, pr)
+                if roots is None:
+                    roots = r2
+                else:
+                    roots.merge(r2)
+            attrs_ = roots.attrs if roots else set()
+            if any(a == "job.inputs" or a.endswith(".inputs") and a.startswith("job") for a in attrs_):
+                col.ok(rule, "PythonTask._run passes values derived from job.inputs (staged copies) to the function", A.loc(c))
+            else:
+                src = sorted(x for x in (roots.calls if roots else []) if not x.startswith("attr:"))
+                col.fail(rule, pr.qualname, "python-body-bypasses-job.inputs:" + "+".join(s.rsplit(".", 1)[-1] for s in src), f"the python function is called with values from {src or sorted(attrs_)} rather than from job.inputs: file inputs declared copy_mode=copy are handed over as the originals and can be modified in place", A.loc(c))
+    # shell task: every environment builds argv from job.inputs (or get_bindings' remapped copy of it)
+    env = A.cls("pydra.environments.base.Environment")
+    for sub in env.all_subclasses():
+        ex = sub.methods.get("execute")
+        if ex is None:
+            continue
+        col.scope(ex.qualname)
+        for c in A.calls(ex):
+            if isinstance(c.func, ast.Attribute) and c.func.attr == "_command_args":
+                n_sites += 1
+                v = kwarg(c, "values") or (c.args[0] if c.args else None)
+                roots = A.flow.derives(v, ex)
+                direct = "job.inputs" in roots.attrs
+                via = any(q.endswith("get_bindings") for q in roots.calls)
+                if direct or via:
+                    col.ok(rule, f"{ex.qualname}: argv is built from {'job.inputs' if direct else 'get_bindings(job) (remapped copy of job.inputs)'}", A.loc(c))
+                else:
+                    col.fail(rule, ex.qualname, f"argv-values:{norm(v, 30)}", f"the command line is built from `{norm(v, 40)}`, not from the staged job.inputs", A.loc(c))
+    gb = A.func("pydra.environments.base.Container.get_bindings")
+    rets = [n for n in walk_own(gb.node) if isinstance(n, ast.Return) and isinstance(n.value, ast.Tuple) and len(n.value.elts) == 2]
+    A.anchor("return bindings, values in get_bindings", rets)
+    for r in rets:
+        roots = A.flow.derives(r.value.elts[1], gb)
+        if "job.inputs" in roots.attrs:
+            col.ok(rule, "Container.get_bindings returns values derived from job.inputs", A.loc(r))
+        else:
+            col.fail(rule, gb.qualname, "bindings-values-not-from-job.inputs", "the values returned by get_bindings do not derive from job.inputs", A.loc(r))
+    # Job.inputs stages with the field's copy mode
+    ji = A.cls("pydra.engine.job.Job").find_method("inputs")
+    col.scope(ji.qualname)
+    cs = [c for c in A.calls(ji) if any(q.endswith("copy_nested_files") for q in A.callee_names(c, ji))]
+    A.anchor("copy_nested_files call in Job.inputs", cs)
+    for c in cs:
+        want = {"mode": "copy_mode", "collation": "copy_collation", "dest_dir": "self.cache_dir"}
+        for k, suffix in want.items():
+            v = kwarg(c, k)
+            if v is not None and norm(v).endswith(suffix):
+                col.ok(rule, f"Job.inputs: copy_nested_files({k}={norm(v)})", A.loc(c))
+            else:
+                col.fail(rule, ji.qualname, f"staging-arg:{k}={norm(v, 30)}", f"Job.inputs stages files with {k}=`{norm(v, 30)}` instead of the field's {suffix}", A.loc(c))
+    if n_sites < 5:
+        raise AnalysisError(f"C19: {n_sites} task-body argument sites found, floor 5 (python function + 4 environments)")
+
+
+# --------------------------------------------------------------------------- #
+# C31
+# --------------------------------------------------------------------------- #
+
+
+@prop(
+    "C31",
+    technique="must-pass-through (dominance over CFGs) + who-may-call over the resolved call graph",
+    decides="_check_rules() is passed on every normally completing path of Job.__init__ (so no Job exists for a task violating its rules); Submitter.__call__ checks the rules before constructing the job; Workflow.construct checks every node's rules; ShellTask._command_args re-checks before building argv; _check_rules raises when _rule_violations() is non-empty; task bodies (<task>._run/_run_async) are called only from the run functions.",
+    not_decided="exactness of Task._rule_violations (requirement-set and xor arithmetic over runtime values).",
+    level_note="Trusted: class-hierarchy call resolution of pydra_sa.",
+)
+def check_c31(A: Analysis, col: Collector):
+    def must_pass(fn: FuncInfo, what: str, before_pred=None):
+        cfg = A.cfg(fn)
+        is_chk = lambda n: any(isinstance(c.func, ast.Attribute) and c.func.attr == "_check_rules" for c in _calls_in_node(n))
+        chk = [n for n in cfg.nodes if is_chk(n)]
+        if not chk:
+            col.fail("C31.must-check", fn.qualname, "no-_check_rules-call", f"{what}: _check_rules() is not called", A.loc(fn.node))
+            return
+        if before_pred is None:
+            esc = explore(cfg, [(cfg.entry, None)], A.rm.tokens_fn(fn), stop=is_chk)
+            if [e for e in esc if e.exit_kind == "return"]:
+                col.fail("C31.must-check", fn.qualname, "completes-without-_check_rules", f"{what}: a normally completing path skips _check_rules()", A.loc(fn.node))
+            else:
+                col.ok("C31.must-check", f"{what}: every normally completing path passes _check_rules()", A.loc(chk[0].stmt))
+        else:
+            targets = [n for n in cfg.nodes if before_pred(n)]
+            A.anchor(f"job construction in {fn.qualname}", targets)
+            ids = {n.id for n in chk}
+            for t in targets:
+                if cfg.dominated_by(t, lambda m: m.id in ids):
+                    col.ok("C31.must-check", f"{what}: _check_rules() dominates `{t.text(40)}`", A.loc(t.stmt))
+                else:
+                    col.fail("C31.must-check", fn.qualname, f"not-dominated:{t.text(30)}", f"{what}: `{t.text(40)}` is reachable without _check_rules()", A.loc(t.stmt))
+
+    ji = A.func("pydra.engine.job.Job.__init__")
+    col.scope(ji.qualname)
+    must_pass(ji, "Job.__init__")
+    sc = A.func("pydra.engine.submitter.Submitter.__call__")
+    col.scope(sc.qualname)
+    is_job_ctor = lambda n: any("pydra.engine.job.Job" in A.callee_names(c, sc) for c in _calls_in_node(n))
+    must_pass(sc, "Submitter.__call__", is_job_ctor)
+    ca = A.func("pydra.compose.shell.task.ShellTask._command_args")
+    must_pass(ca, "ShellTask._command_args")
+    wc = A.func("pydra.engine.workflow.Workflow.construct")
+    col.scope(wc.qualname)
+    cs = [c for c in A.calls(wc) if isinstance(c.func, ast.Attribute) and c.func.attr == "_check_rules"]
+    if cs and any(isinstance(p, ast.For) for p in parents(cs[0])):
+        col.ok("C31.must-check", "Workflow.construct checks the rules of every node's task (inside the loop over nodes)", A.loc(cs[0]))
+    else:
+        col.fail("C31.must-check", wc.qualname, "nodes-not-rule-checked", "Workflow.construct no longer checks the rules of every node", A.loc(wc.node))
+    # _check_rules raises when violations exist
+    cr = A.func("pydra.compose.base.task.Task._check_rules")
+    cfg = A.cfg(cr)
+    tests = [n for n in cfg.nodes if n.kind == "test" and "_rule_violations" in norm(n.stmt.test)]
+    good = False
+    for t in tests:
+        esc = explore(cfg, [(m, None) for l, m in t.succ if l == "T"], A.rm.tokens_fn(cr))
+        if esc and all(e.exit_kind == "raise" for e in esc):
+            good = True
+    if good:
+        col.ok("C31.raise", "Task._check_rules raises when _rule_violations() is non-empty", A.loc(cr.node))
+    else:
+        col.fail("C31.raise", cr.qualname, "violations-not-raised", "Task._check_rules does not raise on rule violations", A.loc(cr.node))
+    if any("attrs.validate" in A.callee_names(c, cr) for c in A.calls(cr)):
+        col.ok("C31.raise", "Task._check_rules runs attrs.validate (allowed_values / field validators)", A.loc(cr.node))
+    else:
+        col.fail("C31.raise", cr.qualname, "no-attrs-validate", "Task._check_rules no longer runs the attrs validators", A.loc(cr.node))
+    # who may call the task body
+    run_qn = {R.fn.qualname for R in run_functions(A)}
+    n = 0
+    for f in A.repo.all_functions():
+        for c in A.calls(f):
+            if isinstance(c.func, ast.Attribute) and c.func.attr in TASK_RUN_ATTRS:
+                tg = A.resolve(c, f).repo_targets
+                recv = dotted(c.func.value) or ""
+                if tg or recv.endswith("task") or recv == "self":
+                    n += 1
+                    if f.qualname in run_qn:
+                        col.ok("C31.who-may-call", f"task body `{norm(c, 40)}` is called from run function {f.qualname}", A.loc(c))
+                    else:
+                        col.fail("C31.who-may-call", f.qualname, f"task-body-called-outside-run-function:{c.func.attr}", f"`{norm(c, 50)}` calls a task body outside the run functions (no Job, hence no rule check, lock or cache protocol)", A.loc(c))
+    if n < 2:
+        raise AnalysisError("C31: fewer than 2 task-body call sites found")
+
+
+# --------------------------------------------------------------------------- #
+# C17: sibling agreement of the two run functions and the two workflow expanders
+# --------------------------------------------------------------------------- #
+
+# result-affecting protocol steps, recognised by resolved callee / attribute
+def _step_of_call(A: Analysis, fn: FuncInfo, c: ast.Call, saved_cwd: set[str]) -> str | None:
+    names = A.callee_names(c, fn)
+    f = c.func
+    attr = f.attr if isinstance(f, ast.Attribute) else None
+    if any(n in ("filelock.SoftFileLock",) or n.endswith(".PydraFileLock") for n in names):
+        return "lock(" + (norm(c.args[0]) if c.args else "") + ")"
+    if any(q.endswith("Job.result") for q in names):
+        return "cache-check"
+    if any(q.endswith("._populate_filesystem") for q in names):
+        return "populate"
+    if RESULT_CLS in names:
+        e = kwarg(c, "errored")
+        return f"Result(errored={norm(e)})"
+    if attr in TASK_RUN_ATTRS:
+        return "task-body"
+    if attr == "_from_job":
+        return "outputs-from-job"
+    if RECORD_ERROR_FN in names:
+        return "record_error"
+    if SAVE_FN in names and kwarg(c, "result") is not None:
+        return "save-result"
+    if attr == "_check_for_hash_changes":
+        return "check-hash-changes"
+    if attr in ("pre_run", "pre_run_task", "post_run_task", "post_run") and (dotted(f.value) or "").endswith("hooks"):
+        return "hook:" + attr
+    if attr in ("start_audit", "monitor", "finalize_audit"):
+        return "audit:" + attr
+    if attr == "unlink":
+        return "unlink-info"
+    if "os.chdir" in names and c.args and isinstance(c.args[0], ast.Name) and c.args[0].id in saved_cwd:
+        return "restore-cwd"
+    return None
+
+
+def _ordered_nodes(node: ast.AST):
+    """source-order traversal of own-scope nodes."""
+    for ch in ast.iter_child_nodes(node):
+        if isinstance(ch, (ast.FunctionDef, ast.AsyncFunctionDef, ast.ClassDef, ast.Lambda)):
+            continue
+        yield ch
+        yield from _ordered_nodes(ch)
+
+
+def protocol_steps(A: Analysis, fn: FuncInfo, depth: int = 2) -> list[str]:
+    saved = _saved_cwd_vars(A, fn)
+    out = []
+    for n in _ordered_nodes(fn.node):
+        if isinstance(n, ast.Call):
+            s = _step_of_call(A, fn, n, saved)
+            if s:
+                out.append(s)
+            elif depth > 0:
+                # inline repo helpers (so extracting a common helper is silent)
+                for t in A.resolve(n, fn).repo_targets:
+                    if isinstance(t, FuncInfo) and t.cls is fn.cls and t.name.startswith("_") and t.name not in ("_populate_filesystem", "_check_for_hash_changes"):
+                        out.extend(protocol_steps(A, t, depth - 1))
+        elif isinstance(n, ast.Assign):
+            for t in n.targets:
+                if isinstance(t, ast.Attribute) and t.attr == "errored" and isinstance(t.value, ast.Name):
+                    out.append(f"errored={norm(n.value)}")
+        elif isinstance(n, ast.If) and "errored" in norm(n.test) and "is not None" in norm(n.test):
+            out.append("hit-test(" + norm(n.test).replace(" ", "") + ")")
+        elif isinstance(n, ast.ExceptHandler):
+            out.append("except:" + norm(n.type))
+        elif isinstance(n, ast.Raise) and n.exc is None:
+            out.append("reraise")
+    # AST order visits call arguments after the call node; normalise 'lock' first is fine
+    return out
+
+
+@prop(
+    "C17",
+    technique="sibling agreement: ordered protocol-step extraction (resolved callees, helper inlining bound 2) from the sync/async run functions and the sync/async workflow expanders",
+    decides="the two run functions perform the same result-affecting protocol steps in the same order (lock name, hit test, populate, Result state, hooks, task body, outputs, error marking, record, save, restore, hash check), and the two workflow expanders agree on construct -> execution_graph -> return_values -> get_runnable_tasks -> loop condition -> rerun expression; the worker's run() forwards to the job's run function with the same rerun value.",
+    not_decided="equality of outputs across workers and schedules (behavioural; the premise is task determinism).",
+    level_note="Audited exceptions: os.chdir(cache_dir) and audit_task only in the sync run function; `self._errored = True` only in run_async (each listed in rules/runfn.py with its reason).",
+)
+def check_c17(A: Analysis, col: Collector):
+    runs = run_functions(A)
+    by = {R.fn.name: R for R in runs}
+    if "run" not in by or "run_async" not in by:
+        raise AnalysisError("C17: Job.run / Job.run_async pair not found")
+    s1 = protocol_steps(A, by["run"].fn)
+    s2 = protocol_steps(A, by["run_async"].fn)
+    col.scope(by["run"].fn.qualname, by["run_async"].fn.qualname)
+    col.notes["run_steps"] = s1
+    col.notes["run_async_steps"] = s2
+    if len(s1) < 15:
+        raise AnalysisError(f"C17: only {len(s1)} protocol steps extracted from Job.run; floor 15")
+    if s1 == s2:
+        col.ok("C17.run-pair", f"Job.run and Job.run_async perform the same {len(s1)} protocol steps in the same order", A.loc(by["run"].fn.node))
+    else:
+        import difflib
+
+        sm = difflib.SequenceMatcher(a=s1, b=s2, autojunk=False)
+        for tag, i1, i2, j1, j2 in sm.get_opcodes():
+            if tag == "equal":
+                continue
+            only_sync, only_async = s1[i1:i2], s2[j1:j2]
+            sig = f"{tag}:sync[{','.join(only_sync)}]:async[{','.join(only_async)}]"
+            col.fail("C17.run-pair", "pydra.engine.job.Job", sig, f"the sync and async run functions disagree: run has {only_sync or 'nothing'} where run_async has {only_async or 'nothing'}", A.loc(by["run_async"].fn.node))
+    for i, st in enumerate(s1):
+        col.ok("C17.run-pair.step", f"step {i}: {st}", "")
+    # expanders
+    sub = A.cls("pydra.engine.submitter.Submitter")
+    seqs = {}
+    for name in ("expand_workflow", "expand_workflow_async"):
+        fn = sub.find_method(name)
+        if fn is None:
+            raise AnalysisError(f"Submitter.{name} not found")
+        col.scope(fn.qualname)
+        steps = []
+        for n in _ordered_nodes(fn.node):
+            if isinstance(n, ast.Call) and isinstance(n.func, ast.Attribute):
+                a = n.func.attr
+                if a in ("construct", "execution_graph", "get_runnable_tasks"):
+                    steps.append(a)
+                elif a in ("run", "submit") and (dotted(n.func.value) or "").endswith("worker"):
+                    steps.append(f"worker.{a}(rerun={norm(kwarg(n, 'rerun'))})")
+            elif isinstance(n, ast.Assign) and any(isinstance(t, ast.Attribute) and t.attr == "return_values" for t in n.targets):
+                keys = sorted(norm(k) for k in n.value.keys) if isinstance(n.value, ast.Dict) else [norm(n.value)]
+                steps.append("return_values=" + ",".join(keys))
+            elif isinstance(n, ast.While):
+                t = norm(n.test)
+                if "exec_graph.nodes" in t:
+                    steps.append("loop-until-all-done" + ("+tasks" if "tasks" in t else ""))
+        seqs[name] = steps
+    col.notes["expander_steps"] = seqs
+    core = lambda seq: [s for s in seq if not s.startswith("worker.submit")]
+    a, b = seqs["expand_workflow"], seqs["expand_workflow_async"]
+
+    def shape(seq):
+        out = []
+        for s in seq:
+            if s.startswith("worker."):
+                s = "worker(" + s.split("(", 1)[1]
+            if out and out[-1] == s:
+                continue
+            out.append(s)
+        return out
+
+    def first_index(seq, item):
+        return seq.index(item) if item in seq else -1
+
+    for name, seq in seqs.items():
+        order = ["construct", "execution_graph", "return_values='exec_graph','workflow'", "get_runnable_tasks"]
+        idx = [first_index(seq, o) for o in order]
+        if -1 in idx or idx != sorted(idx):
+            col.fail("C17.expanders", f"pydra.engine.submitter.Submitter.{name}", "prologue-order:" + ">".join(s for s in seq[:5]), f"{name}: prologue is {seq[:5]}, expected construct -> execution_graph -> return_values -> get_runnable_tasks", A.loc(sub.find_method(name).node))
+        else:
+            col.ok("C17.expanders", f"{name}: construct -> execution_graph -> return_values{{exec_graph,workflow}} -> get_runnable_tasks", A.loc(sub.find_method(name).node))
+    la = [s for s in a if s.startswith("loop-until-all-done")]
+    lb = [s for s in b if s.startswith("loop-until-all-done")]
+    if la and lb and la[0] == lb[0]:
+        col.ok("C17.expanders", f"both expanders loop on `{la[0]}`", A.loc(sub.find_method("expand_workflow").node))
+    else:
+        col.fail("C17.expanders", "pydra.engine.submitter.Submitter", f"loop-conditions:{la[:1]}:{lb[:1]}", f"the expanders' loop conditions differ: {la[:1]} vs {lb[:1]}", A.loc(sub.find_method("expand_workflow").node))
+    ra = {s.split("(", 1)[1] for s in a if s.startswith("worker.")}
+    rb = {s.split("(", 1)[1] for s in b if s.startswith("worker.")}
+    if ra and ra == rb and len(ra) == 1:
+        col.ok("C17.expanders", f"both expanders run node jobs with ({sorted(ra)[0]}", A.loc(sub.find_method("expand_workflow").node))
+    else:
+        col.fail("C17.expanders", "pydra.engine.submitter.Submitter", f"rerun-expr:{sorted(ra)}:{sorted(rb)}", f"node jobs are run with different rerun expressions: {sorted(ra)} vs {sorted(rb)}", A.loc(sub.find_method("expand_workflow").node))
+    # both expanders refresh the runnable list at the end of each iteration
+    for name, seq in seqs.items():
+        if seq and seq[-1] == "get_runnable_tasks" or (len(seq) > 1 and "get_runnable_tasks" in seq[-2:]):
+            col.ok("C17.expanders", f"{name}: the runnable list is refreshed after each round", A.loc(sub.find_method(name).node))
+        else:
+            col.fail("C17.expanders", f"pydra.engine.submitter.Submitter.{name}", "no-refresh-of-runnable-list", f"{name} does not refresh the runnable tasks at the end of the loop body", A.loc(sub.find_method(name).node))
+    # workers: run() reaches the job's run function with the same rerun
+    worker = A.cls("pydra.workers.base.Worker")
+    n = 0
+    for w in [worker] + worker.all_subclasses():
+        r = w.methods.get("run")
+        if r is None:
+            continue
+        col.scope(r.qualname)
+        n += 1
+        reruns = []
+        for c in A.calls(r):
+            kw = kwarg(c, "rerun")
+            if kw is not None:
+                reruns.append(norm(kw))
+            elif any(q.endswith("load_and_run") or q.endswith("Job.run") for q in A.callee_names(c, r)) and len(c.args) >= 2:
+                reruns.append(norm(c.args[-1]))
+        # positional forwarding through executors: run_in_executor(pool, fn, job, rerun)
+        for c in A.calls(r):
+            if isinstance(c.func, ast.Attribute) and c.func.attr in ("run_in_executor", "submit", "exec_as_coro"):
+                if c.args and norm(c.args[-1]) == "rerun":
+                    reruns.append("rerun")
+        if r.node.body and all(isinstance(s, (ast.Pass, ast.Raise, ast.Expr)) for s in r.node.body):
+            col.ok("C17.workers", f"{r.qualname}: abstract", A.loc(r.node))
+        elif reruns and all(x == "rerun" for x in reruns):
+            col.ok("C17.workers", f"{r.qualname} forwards `rerun` unchanged ({len(reruns)} site(s))", A.loc(r.node))
+        elif not reruns:
+            col.ok("C17.workers", f"{r.qualname}: no rerun forwarding site recognised (batch worker; see C28)", A.loc(r.node))
+        else:
+            col.fail("C17.workers", r.qualname, "rerun-forwarding:" + ",".join(sorted(set(reruns))), f"the worker forwards rerun as {sorted(set(reruns))}", A.loc(r.node))
+    if n < 3:
+        raise AnalysisError("C17: fewer than 3 worker run() implementations found")
+
+
+# --------------------------------------------------------------------------- #
+# C36: provenance records
+# --------------------------------------------------------------------------- #
+
+
+def _prov_messages(A: Analysis, fn: FuncInfo):
+    """audit_message(<dict>, AuditFlag.PROV) calls with a literal / local dict: returns
+    [(call, dict node)]"""
+    out = []
+    for c in A.calls(fn):
+        if isinstance(c.func, ast.Attribute) and c.func.attr == "audit_message" and c.args:
+            flag = c.args[1] if len(c.args) > 1 else kwarg(c, "flags")
+            if flag is None or not norm(flag).endswith("PROV"):
+                continue
+            d = c.args[0]
+            if isinstance(d, ast.Name):
+                defs = [p for k, p in A.rs.local_defs(fn).get(d.id, []) if k == "assign"]
+                d = defs[0] if defs else d
+            if isinstance(d, ast.Dict):
+                out.append((c, d))
+    return out
+
+
+def _dict_get(d: ast.Dict, key: str):
+    for k, v in zip(d.keys, d.values):
+        if isinstance(k, ast.Constant) and k.value == key:
+            return v
+    return None
+
+
+@prop(
+    "C36",
+    technique="pairing over the exception CFG (start/end record calls around the task body) + record-shape agreement + shared-state re-entrancy rule over the resolved call graph (SCC through Job.run)",
+    decides="(a) start_audit dominates the task body and finalize_audit is reached on every path out of it in both run functions; the start record ('@type': 'job', startedAtTime) and the end record (endedAtTime, errored) are sent under AuditFlag.PROV with the same '@id' expression, the end record's errored is result.errored of the Result that is saved; (b) the attribute carrying the activity id between start and end lives on an object that is not shared between re-entrant activations of the run function.",
+    not_decided="message transport (messengers), JSON-LD validity, resource-monitor records.",
+    level_note="Trusted: resolved call graph (class-hierarchy analysis) for the re-entrancy argument.",
+)
+def check_c36(A: Analysis, col: Collector):
+    audit = A.cls("pydra.engine.audit.Audit")
+    sa, fa = audit.find_method("start_audit"), audit.find_method("finalize_audit")
+    if sa is None or fa is None:
+        raise AnalysisError("Audit.start_audit / finalize_audit not found")
+    col.scope(sa.qualname, fa.qualname)
+    starts = [(c, d) for c, d in _prov_messages(A, sa) if _dict_get(d, "startedAtTime") is not None]
+    ends = [(c, d) for c, d in _prov_messages(A, fa) if _dict_get(d, "errored") is not None]
+    A.anchor("start record in start_audit", starts)
+    A.anchor("end record (with errored) in finalize_audit", ends)
+    sid = norm(_dict_get(starts[0][1], "@id"))
+    eid = norm(_dict_get(ends[0][1], "@id"))
+    if sid == eid and sid:
+        col.ok("C36.records", f"start and end record carry the same '@id' expression `{sid}`", A.loc(ends[0][0]))
+    else:
+        col.fail("C36.records", fa.qualname, f"id-mismatch:{sid}:{eid}", f"the start record's @id is `{sid}` but the end record's is `{eid}`", A.loc(ends[0][0]))
+    ev = _dict_get(ends[0][1], "errored")
+    params = [p.arg for p in fa.params()]
+    if isinstance(ev, ast.Attribute) and ev.attr == "errored" and isinstance(ev.value, ast.Name) and ev.value.id in params:
+        col.ok("C36.records", f"end record's errored is `{norm(ev)}` of the result passed in", A.loc(ends[0][0]))
+    else:
+        col.fail("C36.records", fa.qualname, f"errored-source:{norm(ev, 30)}", f"the end record's error flag is `{norm(ev, 30)}`, not the errored flag of the job's result", A.loc(ends[0][0]))
+    if _dict_get(ends[0][1], "endedAtTime") is not None:
+        col.ok("C36.records", "end record has endedAtTime", A.loc(ends[0][0]))
+    else:
+        col.fail("C36.records", fa.qualname, "end-record-without-endedAtTime", "the end record carries no endedAtTime", A.loc(ends[0][0]))
+    # the PROV guard of both records
+    for nm, (c, d), f in (("start", starts[0], sa), ("end", ends[0], fa)):
+        guarded = any(isinstance(p, ast.If) and "audit_check" in norm(p.test) and "PROV" in norm(p.test) for p in parents(c))
+        if guarded:
+            col.ok("C36.records", f"{nm} record is sent under audit_check(AuditFlag.PROV)", A.loc(c))
+        else:
+            col.fail("C36.records", f.qualname, f"{nm}-record-not-under-PROV", f"the {nm} record is not guarded by audit_check(AuditFlag.PROV)", A.loc(c))
+    # exactly one start / end record per call: not inside a loop
+    for nm, (c, d), f in (("start", starts[0], sa), ("end", ends[0], fa)):
+        if any(isinstance(p, (ast.For, ast.While)) for p in parents(c)):
+            col.fail("C36.records", f.qualname, f"{nm}-record-in-loop", f"the {nm} record is emitted inside a loop", A.loc(c))
+    if len(starts) == 1 and len(ends) == 1:
+        col.ok("C36.records", "exactly one start-record site and one end-record site", A.loc(starts[0][0]))
+    else:
+        col.fail("C36.records", audit.qualname, f"record-sites:{len(starts)}:{len(ends)}", f"{len(starts)} start-record sites and {len(ends)} end-record sites", A.loc(starts[0][0]))
+    # run functions: start dominates the body, finalize on every path out of it, same result as saved
+    runs = run_functions(A)
+    for R in runs:
+        fn = R.fn
+        col.scope(fn.qualname)
+        is_start = lambda n: any(isinstance(c.func, ast.Attribute) and c.func.attr == "start_audit" for c in _calls_in_node(n))
+        is_fin = lambda n: any(isinstance(c.func, ast.Attribute) and c.func.attr == "finalize_audit" for c in _calls_in_node(n))
+        tn = R.cfg.nodes_containing(R.task_call)
+        if all(R.cfg.dominated_by(t, is_start) for t in tn):
+            col.ok("C36.pairing", f"{fn.qualname}: start_audit dominates the task body", A.loc(R.task_call))
+        else:
+            col.fail("C36.pairing", fn.qualname, "body-without-start-record", "the task body can run without start_audit having been called", A.loc(R.task_call))
+        check_pairing(A, col, R, "C36.pairing", "prov-end-record", tn, is_fin, start_edges="all", what="audit.finalize_audit")
+        fins = [c for c in A.calls(fn) if isinstance(c.func, ast.Attribute) and c.func.attr == "finalize_audit"]
+        for c in fins:
+            rv = kwarg(c, "result") or (c.args[0] if c.args else None)
+            saved = {norm(kwarg(s, "result")) for s in R.save_calls}
+            if rv is not None and norm(rv) in saved:
+                col.ok("C36.pairing", f"{fn.qualname}: finalize_audit receives the Result that is saved (`{norm(rv)}`)", A.loc(c))
+            else:
+                col.fail("C36.pairing", fn.qualname, f"finalize-result:{norm(rv, 20)}", "finalize_audit is given a different object than the Result that is saved", A.loc(c))
+        # no second start_audit on a path
+        sn = [n for n in R.cfg.nodes if is_start(n)]
+        for s in sn:
+            reach = R.cfg.reachable_from([m for _, m in s.succ])
+            if any(o.id in reach for o in sn):
+                col.fail("C36.pairing", fn.qualname, "start-record-twice", "start_audit can run twice on one path", A.loc(s.stmt))
+    # (b) shared state across re-entrant activations
+    carried = set()
+    for n in walk_own(sa.node):
+        if isinstance(n, ast.Assign):
+            for t in n.targets:
+                if isinstance(t, ast.Attribute) and dotted(t.value) == "self":
+                    carried.add(t.attr)
+    read_in_end = {n.attr for n in walk_own(fa.node) if isinstance(n, ast.Attribute) and dotted(n.value) == "self" and isinstance(n.ctx, ast.Load)}
+    carried &= read_in_end
+    if "aid" not in carried:
+        col.ok("C36.reentrancy", "the activity id is not carried through an attribute of the Audit object", A.loc(sa.node))
+        return
+    ji = A.func("pydra.engine.job.Job.__init__")
+    assigns = [n for n in walk_own(ji.node) if isinstance(n, ast.Assign) and any(isinstance(t, ast.Attribute) and t.attr == "audit" and dotted(t.value) == "self" for t in n.targets)]
+    A.anchor("self.audit = ... in Job.__init__", assigns)
+    shared = False
+    for a in assigns:
+        v = a.value
+        fresh = isinstance(v, ast.Call) and (any(q in ("copy.copy", "copy.deepcopy") or q.endswith(".Audit") for q in A.callee_names(v, ji)) or (isinstance(v.func, ast.Attribute) and v.func.attr in ("copy", "clone", "fork")))
+        if not fresh:
+            shared = True
+    # re-entrancy: Job.run reaches itself through the call graph
+    run = A.func("pydra.engine.job.Job.run")
+    reach = A.closure(A.callees(run), limit=600)
+    reentrant = any(f.qualname == run.qualname for f in reach)
+    col.notes["job_run_reentrant"] = reentrant
+    col.notes["carried_audit_attrs"] = sorted(carried)
+    if shared and reentrant:
+        cyc = "Job.run -> WorkflowTask._run -> Submitter.expand_workflow -> Worker.run -> Job.run"
+        col.fail("C36.reentrancy", "pydra.engine.audit.Audit", "shared-activity-id:" + "+".join(sorted(carried)), f"attributes {sorted(carried)} written by start_audit and read by finalize_audit live on the Audit object that Job.__init__ shares between all jobs of a submitter, and the run function is re-entrant ({cyc}): a nested job overwrites the outer job's activity id, so the outer end record carries the inner id", A.loc(assigns[0]))
+    else:
+        col.ok("C36.reentrancy", f"activity id attributes {sorted(carried)} live on a per-job Audit object (or the run function is not re-entrant)", A.loc(assigns[0]))
